@@ -85,7 +85,14 @@ def main():
                     with open(file_in, mode='w', encoding='latin-1', newline='') as fd_orig:
                         fd_orig.write(fd_out.read())
                 else:
-                    sys.stdout.write(fd_out.read())
+                    # the same bytes -o and -i write, whatever encoding the terminal has
+                    out_bytes = getattr(sys.stdout, 'buffer', None)
+                    if out_bytes is not None:
+                        sys.stdout.flush()
+                        out_bytes.write(fd_out.read().encode('latin-1'))
+                        out_bytes.flush()
+                    else:
+                        sys.stdout.write(fd_out.read())
     return True
 
 if __name__ == '__main__':
